@@ -155,3 +155,46 @@ Example C13_ex4 :
   spec_operate exact_op (fstr_tab []) OSub true (Col KFloat [0%N; 1%N] [VFlt (FFin false 1 0); VFlt FNan]) (OCol KInt [VInt 3; VInt 4])
   = Ok (Col KFloat [0%N; 1%N] [VFlt (FFin false 1 1); VFlt FNan]).
 Proof. vm_compute. reflexivity. Qed.
+
+(* ---------- SeriesColumn *)
+From DM Require Import Spec.ArithSeries Model.ArithSeries Proofs.ArithSeriesFacts.
+
+Theorem C13_series_refines :
+  forall (num_op : binop -> num -> num -> num), (forall a b, num_op OMul a b = num_op OMul b a) ->
+  forall d c o, series_operate num_op d c o = spec_series num_op (dunder_op d) (dunder_refl d) c o.
+Proof. exact series_refines. Qed.
+Print Assumptions C13_series_refines.
+
+Theorem C13_series_shape :
+  forall num_op op refl c o r, spec_series num_op op refl c o = Ok r ->
+  sdepth r = sdepth c /\ sids r = sids c /\ List.length (srows r) = List.length (srows c).
+Proof. exact spec_series_shape. Qed.
+Print Assumptions C13_series_shape.
+
+Theorem C13_series_scalar :
+  forall num_op op refl c x r i j, spec_series num_op op refl c (SScalar x) = Ok r ->
+  (i < List.length (srows c))%nat -> (j < List.length (nth i (srows c) []))%nat ->
+  nth j (nth i (srows r) []) FNan = scell num_op op refl (nth j (nth i (srows c) []) FNan) x.
+Proof. exact spec_series_scalar. Qed.
+Print Assumptions C13_series_scalar.
+
+Theorem C13_series_per_row :
+  forall num_op op refl c xs r i j, spec_series num_op op refl c (SVec xs) = Ok r ->
+  List.length xs = List.length (srows c) ->
+  (i < List.length (srows c))%nat -> (j < List.length (nth i (srows c) []))%nat ->
+  nth j (nth i (srows r) []) FNan = scell num_op op refl (nth j (nth i (srows c) []) FNan) (nth i xs (NInt 0)).
+Proof. exact spec_series_per_row. Qed.
+Print Assumptions C13_series_per_row.
+
+Theorem C13_series_per_sample :
+  forall num_op op refl c xs r i j, spec_series num_op op refl c (SVec xs) = Ok r ->
+  List.length xs <> List.length (srows c) ->
+  (i < List.length (srows c))%nat -> List.length (nth i (srows c) []) = List.length xs -> (j < List.length xs)%nat ->
+  nth j (nth i (srows r) []) FNan = scell num_op op refl (nth j (nth i (srows c) []) FNan) (nth j xs (NInt 0)).
+Proof. exact spec_series_per_sample. Qed.
+Print Assumptions C13_series_per_sample.
+
+Example C13_ex5 :
+  series_operate exact_op DRSub (SCol 2 [4%N; 0%N] [[FFin false 1 0; FNan]; [FFin false 3 0; FFin false 1 (-1)]]) (SVec [NInt 1; NInt 5])
+  = Ok (SCol 2 [4%N; 0%N] [[FZero false; FNan]; [FFin false 1 1; FFin false 9 (-1)]]).
+Proof. vm_compute. reflexivity. Qed.
